@@ -568,4 +568,79 @@ theorem userLevel2_frame_docker (ver : Nat) (f : Option (List Nat)) (perm : Nat)
 
 example : (updateUserLevel2 cfgDefault 2 none 5 true 99).isSome = true := by decide +kernel
 
+
+/-! ### histories with failed writes; concurrent entry writers -/
+
+/-- a write that fails (ENOSPC, EFBIG, EBADF, encoding error) leaves no trace: the files after any history are
+the files after the same history with the failed writes removed. -/
+theorem failed_writes_leave_no_trace (c : Config) (s : HFiles) (h : List HStep) :
+    (runHist c s h).2 = (runHist c s (h.filter (fun st => !st.isFail))).2 :=
+  (runHist_filter_fail c h s).symm
+
+/-- a single-field update issued after ANY history (failed writes, other updates, whole-record writes, log
+appends, in any order) rewrites exactly its field of exactly that user's record of the `.PASSWDS` that history
+left behind, and does not touch the `.post` log. -/
+theorem update_after_any_history_frame (s : Site) (fn fld : String) (sz off n : Nat)
+    (hs : SeekIsFrozen s fn "UserecRaw" fld sz off n)
+    (s0 : HFiles) (pre : List HStep) (uid : Int) (b : List Nat)
+    (hok : (hstep s.cfg (runHist s.cfg s0 pre).2 (.upd fn uid b)).1 = true) :
+    let before := (runHist s.cfg s0 pre).2
+    let after := (runHist s.cfg s0 (pre ++ [.upd fn uid b])).2
+    after.post = before.post ∧
+    ∃ u : Nat, uid = (u : Int) ∧ 1 ≤ u ∧ b.length = n ∧
+      (u * sz ≤ before.passwd.length →
+        after.passwd.length = before.passwd.length ∧
+        (∀ v, v ≠ u - 1 → slot after.passwd sz v = slot before.passwd sz v) ∧
+        fieldBytes (slot after.passwd sz (u - 1)) off n = b ∧
+        ∀ o m, (o + m ≤ off ∨ off + n ≤ o) →
+          fieldBytes (slot after.passwd sz (u - 1)) o m = fieldBytes (slot before.passwd sz (u - 1)) o m) := by
+  intro before after
+  have ha : after = (hstep s.cfg before (.upd fn uid b)).2 := runHist_append_one s.cfg pre s0 _
+  change (hstep s.cfg before (.upd fn uid b)).1 = true at hok
+  simp only [hstep] at ha hok
+  cases hw : passwdWrite s.cfg fn before.passwd uid b with
+  | none => simp [hw] at hok
+  | some f' =>
+    simp only [hw] at ha
+    rw [ha]
+    exact ⟨rfl, passwd_update_frame s fn fld sz off n hs before.passwd uid b f' hw⟩
+
+/-- non-vacuity: a failed write, then a password update of user 2, on a two-record file. -/
+example : (runHist cfgDefault ⟨List.replicate 1024 7, []⟩ [.fail, .upd "cmbbs.PasswdUpdatePasswd" 2 (List.replicate 14 1)]).1
+    = [false, true] := by decide +kernel
+
+/-- `types.BinWrite` image of a whole record: exactly `total` bytes. -/
+theorem recordImage_length (fs : Fields) (vals : List (List Nat)) (total : Nat) (img : List Nat)
+    (h : recordImage (.struct fs) vals total = some img) : img.length = total := by
+  unfold recordImage at h
+  split at h
+  · rename_i hc
+    simp only [Option.some.injEq] at h
+    subst h
+    have hl : vals.flatten.length = sizeP (.struct fs) := by
+      have h1 : (vals.map List.length).sum = ((Ty.struct fs).packed.map (fun x => x.2.2)).sum := by rw [hc.1]
+      rw [List.length_flatten, h1]
+      simp only [Ty.packed, Ty.fields, sizeP]
+      exact fieldsP_sizes_sum fs 0
+    have := hc.2
+    simp [hl]; omega
+  · cases h
+
+/-- CONCURRENCY, all schedules: when every `types.BinWrite` call encodes into storage of its own, then under
+every interleaving of the encode and write steps of any number of writers, every file consists of whole copies of
+the image of ITS OWN record (never a foreign or mixed entry). -/
+theorem concurrent_entries_own_image (img : Nat → List Nat) (sched : List WStep) (i : Nat) :
+    ∃ k, (wrun img winit sched).files i = (List.replicate k (img i)).flatten :=
+  (wrun_inv img sched winit (winit_inv img) i).2
+
+/-- witness for the broken rule: with ONE scratch area shared by all writers the schedule
+encode 0, encode 1, write 0 puts writer 1's entry into writer 0's file. -/
+theorem shared_scratch_breaks :
+    (srun (fun i => if i = 0 then [1, 0, 0, 0] else [2, 0, 0, 0]) ⟨[], fun _ => []⟩ [.enc 0, .enc 1, .wr 0]).files 0
+      = [2, 0, 0, 0] := by decide
+
+/-- the `.fav` image of one board entry: 6 header bytes, type, attribute, the 12-byte entry. -/
+example : favFile cfgDefault 3363 1 16843009 5 =
+    some [0x23, 0x0d, 1, 0, 0, 0, 1, 1, 1, 0, 0, 0, 1, 1, 1, 1, 5, 0, 0, 0] := by decide +kernel
+
 end PttVerif.C01.Props
